@@ -1559,6 +1559,10 @@ evhttp_connection_cb_cleanup(struct evhttp_connection *evcon)
 		return;
 	}
 
+	/* No retry is pending any more: requests made from now on (also from
+	 * the callbacks below) must be dispatched, not just queued. */
+	evcon->retry_cnt = 0;
+
 	/*
 	 * User callback can do evhttp_make_request() on the same
 	 * evcon so new request will be added to evcon->requests.  To
